@@ -18,7 +18,7 @@ EXPLANATION = ("Structural rules over the typed HIR of the ID allocator and of e
                "beyond this shape; scheduler interleavings (the single Mutex critical section is the argument).")
 TRUSTED = ['std::sync::Mutex mutual exclusion', 'std HashSet semantics']
 ASSUMPTIONS = ['RequestId = i32 (checked through the resolved field types)']
-SHARED = [('C01', ('R5.', 'R7.'), 'N7.reservation-kept')]      # a frame nobody waits for must not release an ID; the allocated ID is the one put on the wire
+SHARED = [('C01', ('R5.', 'R7.'), 'N7.reservation-kept'), ('C02', ('S13.',), 'N9.id-on-the-wire')]      # a frame nobody waits for must not release an ID; the allocated ID is the one put on the wire
 UNDECIDED = ['runtime wrap-around over 2^31 allocations (decided only as the allocator shape)']
 
 def check_step(ctx, A, root, V, o, CNT, carried, sig, MAX):
